@@ -96,6 +96,8 @@ FUNCTIONS += [K + "Subterm." + f for f in ("__init__", "can_absorb", "absorb", "
 ASSUMPTIONS += ["Python sets of ExpandedFactor objects are z3 sets over the datatype EF(flag, factor): set membership uses the field-wise "
                 "equality proved for ExpandedFactor.__eq__ above (and the matching __hash__); cardinality is an uninterpreted function "
                 "with the ground facts of vf/pyvc/sets.py (len >= 0 and 0 iff empty; |a - b| = |a| - |b| when b is a subset of a; "
-                "|s + {x}| = |s| + [x not in s]; a one-element set equals {its only listed element})",
+                "|s + {x}| = |s| + [x not in s]; a one-element set equals {its only listed element}); these facts, and that a frozenset of real "
+                "ExpandedFactor objects behaves like the set of their (flag, factor) tuples, are compared with CPython on random sets at the start "
+                "of every proof run (vf/rtc/extvalid.py)",
                 "Subterm.__init__ is verified for a set argument (its callers inside contrasts.py also pass lists of distinct factors)",
                 "hash() of a frozenset is an uninterpreted function of its members (equal sets hash alike)"]
